@@ -545,6 +545,113 @@ pub fn select(m: &Model, ctx: &mut Ctx, rule: &str) {
     }
 }
 
+/// C09.detect: the linker visits a definition only when its detector says there is something to do ("at any depth, any
+/// number"). Each detector — has_choice_selection_type, contains_components_of_notation, contains_constraint_reference,
+/// references_class_by_name — is evaluated (recursion inlined) on small types: a leaf that is the thing looked for, a leaf that
+/// is not, and each container kind holding two children of which only the *second* is positive (so that `any` is not `all`,
+/// `||` is not `&&`, and the first child alone does not decide), one and two levels deep.
+pub fn detectors(m: &Model, ctx: &mut Ctx, rule: &str) {
+    use crate::eval::{Env, Evaluator, Val};
+    use std::collections::BTreeMap as Map;
+    let consts = const_resolver(m);
+    let named = |n: &str, fields: Vec<(&str, Val)>| Val::Ctor(n.to_string(), vec![], fields.into_iter().map(|(k, v)| (k.to_string(), v)).collect::<Map<_, _>>());
+    let wrap = |variant: &str, payload: Val| Val::Ctor(variant.to_string(), vec![payload], Map::new());
+    // constraints are markers: "ref" has a cross reference, "plain" has none
+    let cons = |marks: &[&str]| Val::List(marks.iter().map(|m| Val::Sym(m.to_string())).collect());
+    let hook = |_: &Evaluator, name: &str, a: &[Val]| -> Option<Result<Val, String>> {
+        match (name, a.first()) {
+            (".has_cross_reference", Some(Val::Sym(s))) => Some(Ok(Val::Bool(s == "ref"))),
+            (".is_elsewhere_declared", Some(_)) => Some(Ok(Val::Bool(false))),
+            (".default", Some(_)) => Some(Ok(Val::none())),
+            _ => None,
+        }
+    };
+    let inl = inline_all(m, &["ASN1Type"]);
+    let ev = Evaluator { consts: &consts, call_hook: &hook, inline: Some(&inl) };
+    let member = |ty: Val, c: &[&str]| named("SequenceOrSetMember", vec![("name", Val::Str("m".into())), ("ty", ty), ("constraints", cons(c)), ("optionality", Val::ctor("Required")), ("tag", Val::none())]);
+    let option = |ty: Val, c: &[&str]| named("ChoiceOption", vec![("name", Val::Str("o".into())), ("ty", ty), ("constraints", cons(c)), ("tag", Val::none())]);
+    let seq = |variant: &str, members: Vec<Val>, comps: &[&str], c: &[&str]| wrap(variant, named("SequenceOrSet", vec![("members", Val::List(members)), ("components_of", Val::List(comps.iter().map(|x| Val::Str(x.to_string())).collect())), ("constraints", cons(c)), ("extensible", Val::none())]));
+    let choice = |options: Vec<Val>, c: &[&str]| wrap("Choice", named("Choice", vec![("options", Val::List(options)), ("constraints", cons(c)), ("extensible", Val::none())]));
+    let list = |variant: &str, el: Val, c: &[&str]| wrap(variant, named("SequenceOrSetOf", vec![("element_type", el), ("constraints", cons(c)), ("element_tag", Val::none()), ("is_recursive", Val::Bool(false))]));
+    let neg = || wrap("Boolean", named("Boolean", vec![("constraints", cons(&["plain"]))]));
+    struct Det { name: &'static str, pos: Val, what: &'static str }
+    let dets = vec![
+        Det { name: "has_choice_selection_type", pos: wrap("ChoiceSelectionType", named("ChoiceSelectionType", vec![("choice_name", Val::Str("C".into())), ("selected_option", Val::Str("a".into()))])), what: "a selection type" },
+        Det { name: "contains_components_of_notation", pos: seq("Sequence", vec![member(neg(), &[])], &["Other"], &[]), what: "a COMPONENTS OF notation" },
+        Det { name: "contains_constraint_reference", pos: wrap("Integer", named("Integer", vec![("constraints", cons(&["plain", "ref"])), ("distinguished_values", Val::none())])), what: "a constraint with a reference (the second of two constraints)" },
+        Det { name: "references_class_by_name", pos: wrap("ObjectClassField", named("ObjectClassFieldType", vec![("class", Val::Str("CLS".into())), ("field_path", Val::List(vec![Val::Ctor("SingleValue".into(), vec![Val::Str("&id".into())], Map::new())])), ("constraints", cons(&[]))])), what: "a fixed-type class field" },
+    ];
+    let mut n = 0;
+    for d in dets {
+        let Some(f) = m.fns.iter().find(|f| f.name == d.name && f.self_ty.as_deref() == Some("ASN1Type")) else {
+            ctx.fail_closed(rule, &format!("anchor not found: ASN1Type::{}", d.name));
+            continue;
+        };
+        ctx.func(&f.key);
+        let p = d.pos.clone();
+        let shapes: Vec<(String, Val, bool)> = vec![
+            ("the thing itself".into(), p.clone(), true),
+            ("BOOLEAN".into(), neg(), false),
+            ("SEQUENCE { BOOLEAN, X }".into(), seq("Sequence", vec![member(neg(), &[]), member(p.clone(), &[])], &[], &[]), true),
+            ("SET { BOOLEAN, X }".into(), seq("Set", vec![member(neg(), &[]), member(p.clone(), &[])], &[], &[]), true),
+            ("SEQUENCE { BOOLEAN, BOOLEAN }".into(), seq("Sequence", vec![member(neg(), &[]), member(neg(), &[])], &[], &[]), false),
+            ("CHOICE { BOOLEAN, X }".into(), choice(vec![option(neg(), &[]), option(p.clone(), &[])], &[]), true),
+            ("CHOICE { BOOLEAN, BOOLEAN }".into(), choice(vec![option(neg(), &[]), option(neg(), &[])], &[]), false),
+            ("SEQUENCE OF X".into(), list("SequenceOf", p.clone(), &[]), true),
+            ("SET OF X".into(), list("SetOf", p.clone(), &[]), true),
+            ("SEQUENCE OF BOOLEAN".into(), list("SequenceOf", neg(), &[]), false),
+            ("SEQUENCE { BOOLEAN, CHOICE { BOOLEAN, SET OF X } }".into(), seq("Sequence", vec![member(neg(), &[]), member(choice(vec![option(neg(), &[]), option(list("SetOf", p.clone(), &[]), &[])], &[]), &[])], &[], &[]), true),
+        ];
+        for (desc, v, want) in shapes {
+            n += 1;
+            ctx.oblige(rule, &format!("{}:{}", d.name, desc), true);
+            let mut env = Env::new();
+            env.insert("self".into(), v);
+            match ev.eval_fn_body(&f.block, &mut env) {
+                Ok(Val::Bool(b)) => {
+                    if b != want {
+                        ctx.violate(rule, &format!("{}:{}", d.name, if want { "missed" } else { "false-positive" }), &f.file, f.line,
+                            &format!("ASN1Type::{} says {} for `{}` where X is {}: {}", d.name, b, desc, d.what, if want { "the linker then never visits the definition and the notation reaches the generator unexpanded / unresolved" } else { "a definition without it is treated as if it had one" }));
+                        break;
+                    }
+                }
+                Ok(o) => { ctx.fail_closed(rule, &format!("[{} on {}]: {}", d.name, desc, o.show())); break }
+                Err(e) => { ctx.fail_closed(rule, &format!("[{} on {}]: {}", d.name, desc, e)); break }
+            }
+        }
+    }
+    // constraint references on the component / alternative itself and on the container
+    if let Some(f) = m.fns.iter().find(|f| f.name == "contains_constraint_reference" && f.self_ty.as_deref() == Some("ASN1Type")) {
+        let shapes: Vec<(&str, Val, bool)> = vec![
+            ("SEQUENCE { BOOLEAN, BOOLEAN (ref) } — constraint on the second component", seq("Sequence", vec![member(neg(), &["plain"]), member(neg(), &["plain", "ref"])], &[], &[]), true),
+            ("CHOICE { BOOLEAN, BOOLEAN (ref) }", choice(vec![option(neg(), &["plain"]), option(neg(), &["plain", "ref"])], &[]), true),
+            ("SEQUENCE (plain)(ref) { BOOLEAN }", seq("Sequence", vec![member(neg(), &[])], &[], &["plain", "ref"]), true),
+            ("SEQUENCE (SIZE..) (ref) OF BOOLEAN", list("SequenceOf", neg(), &["plain", "ref"]), true),
+            ("SEQUENCE (plain) { BOOLEAN (plain) }", seq("Sequence", vec![member(neg(), &["plain"])], &[], &["plain"]), false),
+        ];
+        let mut shapes: Vec<(String, Val, bool)> = shapes.into_iter().map(|(d, v, w)| (d.to_string(), v, w)).collect();
+        for variant in ["Boolean", "ObjectIdentifier", "Integer", "BitString", "OctetString", "CharacterString", "Enumerated", "ElsewhereDeclaredType"] {
+            for (marks, want) in [(vec!["plain", "ref"], true), (vec!["plain", "plain"], false)] {
+                shapes.push((format!("{} with constraints {:?}", variant, marks), wrap(variant, named(variant, vec![("constraints", cons(&marks)), ("distinguished_values", Val::none()), ("identifier", Val::Str("T".into()))])), want));
+            }
+        }
+        for (desc, v, want) in shapes {
+            let desc = desc.as_str();
+            n += 1;
+            ctx.oblige(rule, &format!("contains_constraint_reference:{}", desc), true);
+            let mut env = Env::new();
+            env.insert("self".into(), v);
+            match ev.eval_fn_body(&f.block, &mut env) {
+                Ok(Val::Bool(b)) if b == want => {}
+                Ok(Val::Bool(b)) => { ctx.violate(rule, &format!("contains_constraint_reference:{}", if want { "missed" } else { "false-positive" }), &f.file, f.line, &format!("ASN1Type::contains_constraint_reference says {} for `{}`", b, desc)); break }
+                Ok(o) => { ctx.fail_closed(rule, &format!("[contains_constraint_reference on {}]: {}", desc, o.show())); break }
+                Err(e) => { ctx.fail_closed(rule, &format!("[contains_constraint_reference on {}]: {}", desc, e)); break }
+            }
+        }
+    }
+    ctx.floor(&format!("{}/evaluations", rule), n, 20);
+}
+
 pub fn run(m: &Model, ctx: &mut Ctx) {
     ctx.explanation = "C09.sym: each detector/rewriter pair of the linker (contains_components_of_notation / link_components_of_notation, has_choice_selection_type / link_choice_selection_type, \
 contains_constraint_reference / link_constraint_reference, references_class_by_name / resolve_class_reference) must traverse the same container variants of ASN1Type: a container the detector enters but the rewriter does not (or vice versa) leaves a notation unexpanded at that position. \
@@ -588,6 +695,7 @@ Not applicable: the equivalence sugared = expanded itself, independence from the
 
     scope(m, ctx, "C09.scope");
     traverse(m, ctx, "C09.traverse");
+    detectors(m, ctx, "C09.detect");
     select(m, ctx, "C09.select");
     // a class-field reference is replaced by the field's type and nothing else changes (= C02.rebuild)
     crate::rules::c02::rebuild(m, ctx, "C09.rebuild");
@@ -720,6 +828,51 @@ Not applicable: the equivalence sugared = expanded itself, independence from the
                         Err(e) => ctx.fail_closed("C09.splice", &format!("[{}]: {}", key, e)),
                     }
                 }
+            }
+        }
+        // the same traversal evaluated as a whole (recursion inlined) on a three-level chain in which the middle type still
+        // carries its own notation *and* an extension marker: Zlater { own, COMPONENTS OF Mid }, Mid { m, COMPONENTS OF Base, ... },
+        // Base { x, y } — Zlater must end up with own, m, x and y (what is root in Mid is decided after Mid's own expansion)
+        {
+            let inl = inline_all(m, &["ASN1Type"]);
+            let base = Val::Ctor("Sequence".into(), vec![seq(&["x", "y"], None, &[])], BTreeMap::new());
+            let mid = Val::Ctor("Sequence".into(), vec![seq(&["m"], Some(1), &["Base"])], BTreeMap::new());
+            let def = |name: &str, ty: Val| {
+                let mut t = BTreeMap::new();
+                t.insert("ty".to_string(), ty);
+                t.insert("name".to_string(), Val::Str(name.into()));
+                Val::Ctor("Type".into(), vec![Val::Ctor("ToplevelTypeDefinition".into(), vec![], t)], BTreeMap::new())
+            };
+            let defs = vec![("Base".to_string(), def("Base", base)), ("Mid".to_string(), def("Mid", mid))];
+            let hook = move |_: &Evaluator, name: &str, a: &[Val]| -> Option<Result<Val, String>> {
+                match name {
+                    ".get" if matches!(a.first(), Some(Val::Opaque(s)) if s == "tlds") => match a.get(1) {
+                        Some(Val::Str(k)) => Some(Ok(defs.iter().find(|(n, _)| n == k).map(|(_, v)| Val::some(v.clone())).unwrap_or(Val::none()))),
+                        _ => Some(Err("tlds.get with a key that is not a name".into())),
+                    },
+                    ".clone" | ".to_owned" if a.len() == 1 => Some(Ok(a[0].clone())),
+                    _ => None,
+                }
+            };
+            let ev = Evaluator { consts: &consts, call_hook: &hook, inline: Some(&inl) };
+            let mut env = Env::new();
+            env.insert("self".into(), Val::Ctor("Sequence".into(), vec![seq(&["own"], None, &["Mid"])], BTreeMap::new()));
+            env.insert(params.first().cloned().unwrap_or("tlds".into()), Val::Opaque("tlds".into()));
+            for p in params.iter().skip(1) {
+                env.insert(p.clone(), Val::List(vec![]));
+            }
+            ctx.oblige("C09.splice", "three-level chain with a marker in the middle type", true);
+            match ev.eval_fn_body(&f.block, &mut env) {
+                Ok(_) => {
+                    let sh = env.get("self").map(|v| v.show()).unwrap_or_default();
+                    let has = |n: &str| sh.contains(&format!("name:\"{}\"", n));
+                    let missing: Vec<&str> = ["own", "m", "x", "y"].into_iter().filter(|n| !has(n)).collect();
+                    if !missing.is_empty() {
+                        ctx.violate("C09.splice", "nested-root-components-lost", &f.file, f.line,
+                            &format!("Zlater ::= SEQUENCE {{ own, COMPONENTS OF Mid }} with Mid ::= SEQUENCE {{ m, COMPONENTS OF Base, ... }} (not expanded yet) and Base ::= SEQUENCE {{ x, y }}: the components {:?} are missing from Zlater — what belongs to Mid's extension root is known only after Mid's own COMPONENTS OF has been expanded", missing));
+                    }
+                }
+                Err(e) => ctx.fail_closed("C09.splice", &format!("[three-level chain]: {}", e)),
             }
         }
     } else {
